@@ -277,6 +277,20 @@ def histories(tier):
         return m2, dict(kw, external_data="new.data"), info
 
     hs.append(H("loaded_model_saved_to_other_existing_file", other_file_to_existing))
+    # an external tensor whose location only *textually* normalises to the destination: "current/../w.data" with
+    # current -> store/v1 really is store/w.data, a different file from the destination w.data
+    def textual_alias(d):
+        os.makedirs(os.path.join(d, "store", "v1"))
+        os.symlink(os.path.join("store", "v1"), os.path.join(d, "current"))
+        with open(os.path.join(d, "store", "w.data"), "wb") as f:
+            f.write(bytes(range(64)))
+        with open(os.path.join(d, "w.data"), "wb") as f:
+            f.write(b"OLD-DESTINATION" * 4)
+        ext = ir.ExternalTensor(os.path.join("current", "..", "w.data"), 8, 16, ir.DataType.UINT8, shape=ir.Shape([16]), name="e", base_dir=d)
+        return _model([ext, ir.Tensor(_arr(6, 1))]), dict(external_data="w.data", size_threshold_bytes=0), {}
+
+    hs.append(H("external_source_location_textually_aliases_destination", textual_alias))
+
     # the same worlds driven through the lower-level public entry points
     by_name = {h.name: h for h in hs}
     for base_name, entries in (
